@@ -128,6 +128,10 @@ class AsyncRig:
         info["t"] = self.clock.rel()
         self.detail.append((tag, info))
 
+    def mark(self, tag, **info):
+        info["t"] = self.clock.rel()
+        self.detail.append((tag, info))
+
     def _made(self, gw):
         self.emit("M", ok=gw is self.gw)
 
@@ -161,6 +165,7 @@ class AsyncRig:
         tr = FakeAsyncTransport(self, proto)
         # _SelectorSocketTransport.__init__: loop.call_soon(self._protocol.connection_made, self)
         self.loop.call_soon(proto.connection_made, tr)
+        self.mark("up")
         waiter = self.loop.create_future()
         self.loop.call_soon(waiter.set_result, None)
         await waiter                       # create_connection returns after connection_made ran
@@ -173,6 +178,7 @@ class AsyncRig:
         tr = FakeAsyncTransport(self, proto)
         loop.call_soon(proto.connection_made, tr)   # SerialTransport.__init__
         self.links.append(tr)
+        self.mark("up")
         return tr, proto
 
     # --- loop driving
@@ -236,9 +242,11 @@ class AsyncRig:
                 else:
                     exc = OSError("simulated") if ev == "rerr" else ConnectionResetError("simulated")
                 self.injected[id(exc)] = exc
+                self.mark("down", cause=ev)
                 ln.inject_lost(exc)
         elif ev == "pclose":
             if ln:
+                self.mark("down", cause=ev)
                 ln.inject_lost(None)
         elif ev == "werr":
             def werr():
@@ -263,6 +271,7 @@ class AsyncRig:
                 self.emit("X:" + type(t.exception()).__name__)
         elif ev == "ans":
             if ln:
+                self.mark("ans")
                 self._in_loop(lambda: ln.proto.data_received(ANSWER))
         elif is_tick(ev):
             dt = int(ev[1:])
@@ -314,8 +323,9 @@ def run_async(flavour, rt_ticks, events, fail_kind=0):
         first = rig.start()
         obs = []
         for ev in events:
-            rig.detail.append(("ev", {"ev": ev}))
+            rig.mark("ev", ev=ev)
             obs.append(rig.do(ev))
+        rig.mark("end")
         return first, obs, rig.detail
     finally:
         rig.close()
@@ -458,12 +468,18 @@ class SyncRig:
             info["thread"] = threading.current_thread().name
             self.detail.append((tag, info))
 
+    def mark(self, tag, **info):
+        with self.cv:
+            info["t"] = self.clock.rel()
+            self.detail.append((tag, info))
+
     def _made(self, gw):
         self.emit("M", ok=gw is self.gw)
 
     def _lost(self, gw, exc):
         self.emit("L1" if exc else "L0", ok=gw is self.gw, exc=repr(exc),
-                  injected=exc is None or id(exc) in self.injected or "No response from" in str(exc))
+                  injected=exc is None or id(exc) in self.injected or isinstance(exc, OSError) and "No response from" in str(exc)
+                  or type(exc) is OSError and not exc.args)
 
     # --- blocking protocol (cv held by the caller)
     def block(self, kind, **info):
@@ -535,6 +551,7 @@ class SyncRig:
         if self._dial():
             ln = FakeSerial(self)
             self.links.append(ln)
+            self.mark("up")
             return ln
         raise self.serial.SerialException("simulated: could not open port")
 
@@ -542,6 +559,7 @@ class SyncRig:
         if self._dial():
             ln = FakeSocket(self)
             self.links.append(ln)
+            self.mark("up")
             return ln
         raise (self.socket.timeout("simulated") if self.fail_kind else ConnectionRefusedError("simulated"))
 
@@ -632,6 +650,7 @@ class SyncRig:
                     self.release(lambda b: b is dial[0])
         elif ev in ("rerr", "preset"):
             if ln:
+                self.mark("down", cause=ev)
                 if tcp:
                     if ev == "rerr":
                         ln.err_select = True
@@ -673,6 +692,7 @@ class SyncRig:
             if ln:
                 if tcp:
                     if not ln.eof:
+                        self.mark("ans")
                         ln.inbuf.append(ANSWER)
                         self.kick("reader")
                 else:
@@ -738,8 +758,9 @@ def run_sync(flavour, rt_ticks, events, fail_kind=0):
         first = rig.start()
         obs = []
         for ev in events:
-            rig.detail.append(("ev", {"ev": ev}))
+            rig.mark("ev", ev=ev)
             obs.append(rig.do(ev))
+        rig.mark("end")
         return first, obs, rig.detail
     finally:
         rig.close()
